@@ -61,6 +61,19 @@ pub fn bank(s: &Store, k: &Pubkey) -> Bank {
 pub fn account(s: &Store, k: &Pubkey) -> MarginfiAccount {
     read_pod::<MarginfiAccount>(s.data(k))
 }
+/// None when the account does not exist (closed) or is not a marginfi account
+pub fn try_account(s: &Store, k: &Pubkey) -> Option<MarginfiAccount> {
+    match s.get(k) {
+        Some(a) if a.owner == marginfi::ID && a.data.len() == 8 + std::mem::size_of::<MarginfiAccount>() => Some(read_pod::<MarginfiAccount>(&a.data)),
+        _ => None,
+    }
+}
+pub fn try_bank(s: &Store, k: &Pubkey) -> Option<Bank> {
+    match s.get(k) {
+        Some(a) if a.owner == marginfi::ID && a.data.len() == 8 + std::mem::size_of::<Bank>() => Some(read_pod::<Bank>(&a.data)),
+        _ => None,
+    }
+}
 pub fn group(s: &Store, k: &Pubkey) -> MarginfiGroup {
     read_pod::<MarginfiGroup>(s.data(k))
 }
@@ -706,8 +719,8 @@ impl World {
 
     /// metas for one bank observation: bank + its oracle accounts
     pub fn observation(&self, s: &Store, bank_key: &Pubkey) -> Vec<AccountMeta> {
-        let b = bank(s, bank_key);
         let mut v = vec![ix::ro(*bank_key)];
+        let Some(b) = try_bank(s, bank_key) else { return v };
         if b.config.oracle_setup != OracleSetup::Fixed {
             v.push(ix::ro(b.config.oracle_keys[0]));
             for i in 1..3 {
@@ -722,14 +735,10 @@ impl World {
     /// Risk-engine remaining accounts for `account` as they must look *after* the operation:
     /// active balances plus `include`, minus `exclude`, in descending bank-key order.
     pub fn risk_metas(&self, s: &Store, account_key: &Pubkey, include: Option<Pubkey>, exclude: Option<Pubkey>) -> Vec<AccountMeta> {
-        let a = account(s, account_key);
-        let mut banks: Vec<Pubkey> = a
-            .lending_account
-            .balances
-            .iter()
-            .filter(|b| b.active != 0)
-            .map(|b| b.bank_pk)
-            .collect();
+        let mut banks: Vec<Pubkey> = match try_account(s, account_key) {
+            Some(a) => a.lending_account.balances.iter().filter(|b| b.active != 0).map(|b| b.bank_pk).collect(),
+            None => vec![],
+        };
         if let Some(i) = include {
             if !banks.contains(&i) {
                 banks.push(i);
